@@ -83,6 +83,75 @@ def run(facts, cg):
             findings.append({'rule': 'R-CLIFLAGS', 'key': 'R-CLIFLAGS|%s|progress:zero-concurrency' % b.q, 'function': b.q,
                              'what': '--buffered-chunks 0 is accepted: the value is handed to buffered(n) in every pipeline of clone and compress, and with no chunk in flight '
                                      'the stream is never polled - the command waits forever'})
+    # ---- ... and what reaches `buffered(n)` is that value as it is.  A count derived by arithmetic that can round down to nothing
+    # (`min(n, 1 GiB / max_chunk_size)`: 0 for an archive that declares chunks above 1 GiB - written twice, independently, as a
+    # "memory cap") brings the zero back behind the parser's back.  Reducing operations are fine under a final `max(.., >= 1)`.
+    REDUCING_BIN = ('Div', 'Sub', 'Shr', 'Rem', 'BitAnd')
+    REDUCING_CALL = ('min', 'saturating_sub', 'checked_div', 'checked_sub', 'wrapping_sub', 'clamp', 'div_euclid', 'isqrt', 'ilog2', 'checked_rem', 'saturating_div')
+
+    def origins(b, term, depth=0):
+        """the term with the parameters of private helpers replaced by what their callers pass (all combinations, bounded)"""
+        params = [n_ for n_ in walk(term) if n_[0] == 'param']
+        if not params or depth > 3:
+            return [term]
+        p0 = params[0]
+        sites = cg.calls_to(p0[1])
+        if not sites:
+            return [term]
+        out = []
+        for (cb, cbi, ct) in sites[:6]:
+            if p0[2] >= len(ct['args']):
+                continue
+            at = simplify(T.resolve_env(simplify(T.of_operand(cb, ct['args'][p0[2]]))))
+            out += origins(cb, _subst(term, p0, at), depth + 1)
+        return out or [term]
+
+    def _subst(t, old, new):
+        if t == old:
+            return new
+        if isinstance(t, tuple):
+            return tuple(_subst(x, old, new) for x in t)
+        if isinstance(t, list):
+            return [_subst(x, old, new) for x in t]
+        if isinstance(t, dict):
+            return {k: _subst(v, old, new) for k, v in t.items()}
+        return t
+
+    def reducing(t):
+        if isinstance(t, tuple) and t[0] == 'call' and t[1].split('::')[-1] == 'max' and any(isinstance(a, tuple) and a[0] == 'const' and isinstance(a[1], int) and a[1] >= 1 for a in t[2]):
+            return None          # floored at a positive constant
+        if isinstance(t, tuple) and t[0] == 'binop' and t[1] in REDUCING_BIN:
+            return t[1]
+        if isinstance(t, tuple) and t[0] == 'call' and t[1].split('::')[-1] in REDUCING_CALL:
+            return t[1].split('::')[-1]
+        if isinstance(t, tuple):
+            for x in t[1:]:
+                for y in (x if isinstance(x, list) else x.values() if isinstance(x, dict) else [x]):
+                    r_ = reducing(y)
+                    if r_:
+                        return r_
+        return None
+    n_buf = 0
+    for b in facts.bodies.values():
+        if b.generated or not b.id.startswith(('bita::', 'bitar::')):
+            continue
+        for bi, t in b.calls():
+            if 'q' not in t['callee'] or callee_q(t).split('::')[-1] not in ('buffered', 'buffer_unordered') or len(t['args']) < 2:
+                continue
+            n_buf += 1
+            term = simplify(T.resolve_env(simplify(T.of_operand(b, t['args'][1]))))
+            alts = origins(b, term)
+            extra = []
+            for a_ in alts:
+                extra += [a_] + [x for x in __import__('bvlib.terms', fromlist=['var_alternatives']).var_alternatives(T, b, a_)]
+            why = next((reducing(a_) for a_ in extra if reducing(a_)), None)
+            instances.append({'rule': 'R-CLIFLAGS(progress)', 'function': b.q, 'buffered_at': t['loc'], 'count': show(alts[0])[:80], 'derived_by_reducing_arithmetic': why})
+            if why:
+                findings.append({'rule': 'R-CLIFLAGS', 'key': 'R-CLIFLAGS|%s|progress:derived-concurrency' % b.q, 'function': b.q,
+                                 'what': 'the number of chunks in flight handed to buffered() at %s is derived by %s: it can come out as 0 (an archive that declares huge chunks, a '
+                                         'small option value) and buffered(0) never polls its inner stream - the command hangs' % (t['loc'], why)})
+    if n_buf < 4:
+        findings.append({'rule': 'R-CLIFLAGS', 'key': 'R-CLIFLAGS|-|floor-progress-buffered', 'function': '-', 'what': 'expected the buffered() stages of the pipelines, found %d (cannot decide)' % n_buf})
     if n_def < 1:
         findings.append({'rule': 'R-CLIFLAGS', 'key': 'R-CLIFLAGS|-|floor-progress', 'function': '-', 'what': 'the definition of --buffered-chunks was not found (cannot decide)'})
     return instances, findings
